@@ -14,7 +14,10 @@ EXPLANATION = (
     "constructor path assigns (in a body, through helpers up to depth 4) is also assigned on the copy-construction path (copy "
     "constructor + operator=), so no member a fresh object has initialised is left indeterminate or defaulted in a copy; R17.4 "
     "nondeterminism sources - no rand/srand/random_device/time-seeded generator, no RNG engine other than soplex::Random, no iteration "
-    "over unordered containers, no ordering/hashing of pointer values in library code (positive controls fire on every run). NOT "
+    "over unordered containers, no ordering/hashing of pointer values in library code (positive controls fire on every run); R17.5 "
+    "source-guarded copy - an if inside a copy operation whose branch copies member P from the source never tests the destination's own "
+    "P; R17.6 back-pointers - a raw non-owning pointer member that a copy operation on the copy path copies verbatim is re-bound to the "
+    "copy's own object later in that function, after the call in a calling function on the copy path, or by its load(owner) member. NOT "
     "decided: bit-identical results of two runs, which depends on the arithmetic performed.")
 
 C = M.CLS
@@ -306,6 +309,179 @@ def run(fb, rep, tier):
             key = '%s|copy-ctor-path|%s' % (K.replace('soplex::', ''), fld)
             rep.check(fld in wc, 'R17.3', key, ccs[0].where(), 'assigned on both construction paths',
                       'the default constructor assigns %s but the copy constructor / operator= never does: a copy-constructed object holds an indeterminate or default value there' % fld)
+
+    # ------------------------------------------------------------------ R17.5
+    # a copy operation decides what to copy from the state of its *source*: an if whose branch copies a member from the source must not
+    # test that same member of the destination (it is about to be overwritten and, in a fresh object, is always empty / null)
+    rep.rule('R17.5', 'a copy operation never decides what to copy from the destination\'s own (about to be overwritten) member', floor=6)
+    copyfuncs = []
+    for K in sorted(ops):
+        for g in fb.methods_of(K):
+            if g.implicit or not g.params:
+                continue
+            pt = g.params[0][1].replace('soplex::', '')
+            kk = K.replace('soplex::', '').split('<')[0]
+            if g.mk in ('copyctor', 'copyassign') or (re.match(r'^const %s(<.*>)? &$' % re.escape(kk), pt) and len(g.params) == 1 and g.short in ('assign', 'copy', 'copyFrom', 'set')):
+                copyfuncs.append(g)
+    n_if = 0
+    for g in copyfuncs:
+        src = g.params[0][0]
+        if not src:
+            continue
+
+        def dst_path(e):
+            t = render(strip(e))
+            t = re.sub(r'^\(?\*?this\)?(->|\.)', '', t)
+            return re.sub(r'^this->', '', t).replace('this->', '')
+        for n in g.nodes:
+            if n.k != 'IfStmt' or g.in_assert(n):
+                continue
+            copies = []       # (destination path, node) for `P = src.P` / memcpy(P, src.P, ..) inside a branch
+            for br in ('then', 'else'):
+                b = n.kid(br)
+                if b is None:
+                    continue
+                for x in b.walk():
+                    l = r = None
+                    if x.k == 'BinaryOperator' and x.o == '=':
+                        l, r = x.kids[0], x.kids[1]
+                    elif x.k == 'CXXOperatorCallExpr' and x.o == '=' and len(x.args()) == 2:
+                        l, r = x.args()
+                    elif x.k == 'CallExpr' and x.short in ('memcpy', 'memmove') and len(x.args()) >= 2:
+                        l, r = x.args()[0], x.args()[1]
+                    if l is None:
+                        continue
+                    lp, rp = dst_path(l), render(strip(r))
+                    if rp in ('%s.%s' % (src, lp), '%s->%s' % (src, lp)):
+                        copies.append((lp, x))
+            if not copies:
+                continue
+            n_if += 1
+            ct = render(n.kid('cond'))
+            # paths the condition reads through the destination: the same text without the source prefix
+            stale = []
+            for lp, x in copies:
+                pat = r'(?<![\w.>])(this->)?%s(?![\w])' % re.escape(lp)
+                for m in re.finditer(pat, ct):
+                    pre = ct[:m.start()]
+                    if not re.search(r'(\b%s(\.|->))$' % re.escape(src), pre):
+                        stale.append(lp)
+            key = '%s|if(%s)' % (g.name.replace('soplex::', '')[:60], ct[:40])
+            rep.check(not stale, 'R17.5', key, '%s:%d' % (g.file, n.l), 'the guard of the copy of %s reads the source' % sorted(set(c[0] for c in copies))[:3],
+                      'the condition (%s) reads the destination\'s own %s, which the guarded branch then overwrites from %s: in a fresh or stale destination the test says nothing about the source and the wrong branch is taken' % (ct[:60], sorted(set(stale)), src))
+    if n_if < 4:
+        raise AnalysisBroken('R17.5: only %d guarded member copies found in copy operations' % n_if)
+
+    # ------------------------------------------------------------------ R17.6
+    # non-owning raw pointers into a sibling component: a user-provided operator= on the copy path that copies one verbatim leaves the copy
+    # pointing into the *source* solver unless some function on the copy path re-binds that member
+    rep.rule('R17.6', 'a raw back-pointer member copied verbatim by an operator= on the copy path is re-bound to the copy\'s own component somewhere on the copy path', floor=4)
+    # functions reachable from SoPlexBase::operator= (all calls, virtual calls resolved to every overrider), depth <= 7
+    reach = {}
+    work = [(opeq, 0)] + [(g, 0) for g in fb.methods_of(C) if g.mk == 'copyctor']
+    while work:
+        g, d = work.pop()
+        if g.u in reach and reach[g.u] <= d:
+            continue
+        reach[g.u] = d
+        if d >= 7:
+            continue
+        for n in g.nodes:
+            if n.is_call() and n.u:
+                for h in fb.resolve(n):
+                    if h.name.startswith('soplex::'):
+                        work.append((h, d + 1))
+    writers = {}          # qualified field -> functions that assign it (through any object expression)
+    for g in fb.funcs.values():
+        for n in g.nodes:
+            if n.k == 'BinaryOperator' and n.o == '=':
+                l = strip(n.kids[0])
+                if l.k == 'MemberExpr' and l.dk == 'field':
+                    writers.setdefault(l.n, []).append((g, n))
+    n_back = 0
+    cands = []            # (class, function, field short, qualified field, node, source name)
+    cpfuncs = dict((f2.u, f2) for f2 in ops.values())
+    for u in reach_cc:
+        cpfuncs[u] = fb.funcs[u]
+    for f2 in sorted(cpfuncs.values(), key=lambda g: g.name):
+        K2 = f2.cls
+        if K2 not in fb.classes or CONTAINERS.match(K2) or not f2.params or f2.implicit:
+            continue
+        rhs2 = f2.params[0][0]
+        ptrf = {x['n']: x for x in fb.classes[K2]['fields'] if x['tk'] == 'ptr'}
+        for x in f2.nodes:
+            if not (x.k == 'BinaryOperator' and x.o == '='):
+                continue
+            l = strip(x.kids[0])
+            if l.k == 'MemberExpr' and l.dk == 'field' and l.short in ptrf and render(x.kids[1]) in ('%s.%s' % (rhs2, l.short),):
+                cands.append((K2, f2, l.short, l.n, x, rhs2, ptrf[l.short]))
+        for fld, e, w in f2.inits:
+            sh = fld.split('::')[-1]
+            if sh in ptrf and e is not None and render(e) == '%s.%s' % (rhs2, sh):
+                cands.append((K2, f2, sh, fld, e, rhs2, ptrf[sh]))
+    for K2, f2, sh, qn, x, rhs2, fd in cands:
+        n_back += 1
+        key = '%s::%s|back-pointer|%s' % (K2.replace('soplex::', ''), 'operator=' if f2.mk == 'copyassign' else 'copy-ctor', sh)
+        wh = '%s:%d' % (f2.file, x.l)
+        if sh == 'spxout':
+            rep.ok('R17.6', key, wh, 'message handler: owned by the caller, shared by design', nontrivial=False)
+            continue
+        if fd['t'].replace('soplex::', '') == 'const char *':
+            rep.ok('R17.6', key, wh, 'const char*: name string with static storage duration', nontrivial=False)
+            continue
+        if sh == '_tolerances' or 'shared_ptr' in fd['t']:
+            continue      # R17.2
+        # re-bound: a non-null assignment to the same member that is not itself a verbatim copy, either later in the copying function
+        # itself, or - in a function on the copy path that calls the copying function - after that call (directly or inside a callee
+        # up to depth 2)
+        def rebinding(g, n):
+            rt = render(n.kids[1])
+            if re.search(r'\b\w+(\.|->)%s$' % re.escape(sh), rt) and g.mk in ('copyassign', 'copyctor'):
+                return False
+            return rt.strip('()') not in ('nullptr', '0', 'NULL', '__null')
+        wr = [(g, n) for (g, n) in writers.get(qn, []) if rebinding(g, n)]
+        reb = [(g, n) for (g, n) in wr if g.u == f2.u and n.i > x.i]
+        if not reb:
+            wfun = {}
+            for g, n in wr:
+                wfun.setdefault(g.u, (g, n))
+            for gu in reach:
+                g = fb.funcs[gu]
+                calls = [c for c in g.nodes if c.is_call() and c.u == f2.u]
+                if not calls:
+                    continue
+                first = min(c.i for c in calls)
+                for n in g.nodes:
+                    if n.i <= first:
+                        continue
+                    if n.k == 'BinaryOperator' and n.o == '=' and strip(n.kids[0]).k == 'MemberExpr' and strip(n.kids[0]).n == qn and rebinding(g, n):
+                        reb.append((g, n))
+                    elif n.is_call() and n.u:
+                        for h in fb.resolve(n):
+                            if h.u in wfun:
+                                reb.append((h, wfun[h.u][1]))
+                            else:
+                                for m in h.nodes:
+                                    if m.is_call() and m.u in wfun:
+                                        reb.append((fb.funcs[m.u], wfun[m.u][1]))
+                if reb:
+                    break
+        if not reb:
+            # installable component (pricer, ratio tester, starter): the pointer is bound by the owner through a load(owner) member that
+            # assigns it from its parameter; the copy path installs the cloned components through it (class-level argument)
+            for g, n in wr:
+                if g.u in reach and g.cls == K2 and render(n.kids[1]).strip('()') in [pp[0] for pp in g.params]:
+                    reb.append((g, n))
+                    break
+        if reb:
+            g, n = reb[0]
+            rep.ok('R17.6', key, wh, 're-bound on the copy path by %s (%s:%d: %s)' % (g.short, g.file.split('/')[-1], n.l, render(n)[:50]))
+        else:
+            ws = sorted(set(g.short for g, n in writers.get(qn, []) if g.mk not in ('copyassign', 'copyctor')))
+            rep.bad('R17.6', key, wh, '%s = %s.%s: the copy keeps pointing at an object of the source solver (%s); no function reachable from SoPlexBase::operator= re-binds it (it is only set by %s), so using the copy after the source has changed or been destroyed reads foreign / freed memory'
+                    % (sh, rhs2, sh, fd['t'].replace('soplex::', ''), ws or 'its copy operations'))
+    if n_back < 4:
+        raise AnalysisBroken('R17.6: only %d verbatim pointer copies found on the copy path' % n_back)
 
     # ------------------------------------------------------------------ R17.4
     rep.rule('R17.4', 'no nondeterminism source in library code: rand/srand/random_device/time seeding, foreign RNG engines, unordered-container iteration', floor=2)
